@@ -37,7 +37,7 @@ def run(tier: str) -> int:
     scs = ec.el_scenarios(tier)
     if quick:
         total, distinct = ec.conc_check(ck, scs, tier, "EventLoopTrace", ec.EL_TRACE_CONSTS, ec.EL_INVS, "evloop-conc",
-                                        bound=2, per_level=(1, 24, 12, 3), nrandom=4, procs=8)
+                                        bound=2, per_level=(1, 20, 10, 3), nrandom=4, procs=8)
     else:
         total, distinct = ec.conc_check(ck, scs, tier, "EventLoopTrace", ec.EL_TRACE_CONSTS, ec.EL_INVS, "evloop-conc",
                                         bound=3, per_level=(1, 250, 300, 150, 50), nrandom=120, procs=8)
@@ -53,7 +53,7 @@ def run(tier: str) -> int:
         if drift:
             ck.drift(drift)
     ck.nontrivial = distinct
-    ck.exhaustive = False if quick else False
+    ck.exhaustive = False
     ck.note("schedules", "level-sampled up to the preemption bound + seeded random; not exhaustive (see evloop-conc_scenarios_truncated_at_max_schedules)")
     ck.assumptions = ASSUME
     return ck.finish()
